@@ -95,11 +95,13 @@ theorem mem_relBuckets (ps : List (String × V × V)) (x : V) :
   · rintro ⟨b, ⟨n, _, rfl⟩, hx⟩
     simp only [Bucket.members, List.mem_map, mem_dedup, List.mem_filter, decide_eq_true_eq, relRow] at hx
     obtain ⟨r, ⟨p, ⟨hp, hn⟩, rfl⟩, rfl⟩ := hx
-    exact ⟨p, hp, by simp [hn]⟩
+    refine ⟨p, hp, ?_⟩
+    by_cases hlt : "@" < n <;> simp [hn, hlt]
   · rintro ⟨p, hp, rfl⟩
     refine ⟨_, ⟨p.1, ⟨p, hp, rfl⟩, rfl⟩, ?_⟩
     simp only [Bucket.members, List.mem_map, mem_dedup, List.mem_filter, decide_eq_true_eq, relRow]
-    exact ⟨(p.2.1, p.2.2), ⟨p, ⟨hp, rfl⟩, rfl⟩, rfl⟩
+    refine ⟨_, ⟨p, ⟨hp, rfl⟩, rfl⟩, ?_⟩
+    by_cases hlt : "@" < p.1 <;> simp [hlt]
 
 theorem mem_ite_bucket {α : Type} (l : List α) (b : Bucket) (x : V) :
     x ∈ bucketsMembers (if l.isEmpty then [] else [b]) ↔ l ≠ [] ∧ x ∈ b.members := by
@@ -300,6 +302,18 @@ theorem concat_impl (a b : Coll) :
 
 /-! ## `>>` through the generic `case Set` loop -/
 
+theorem valueOk_isNum {name : String} {k w : V} (h : Spec.valueOk name k w = true)
+    (hn : name = "@char" ∨ name = "@byte") : isNum w = true := by
+  have hne : ("@byte" : String) ≠ "@char" := by decide
+  unfold Spec.valueOk at h
+  cases k with
+  | num i =>
+    rcases hn with rfl | rfl
+    · cases w <;> simp_all [isNum]
+    · cases w <;> simp_all [isNum]
+  | tup a => simpa [hn] using h
+  | set a => simpa [hn] using h
+
 theorem setLoop_of_mapMembers {f : F} {l ys : List V} (h : Spec.mapMembers f l = .ok ys) :
     Impl.setLoop f l = .ok ys := by
   induction l generalizing ys with
@@ -329,8 +343,12 @@ theorem setLoop_of_mapMembers {f : F} {l ys : List V} (h : Spec.mapMembers f l =
             rw [hf] at h1
             simp only at h1 ⊢
             split at h1
-            · simp only [Except.ok.injEq] at h1; subst h1
-              rw [ih h2]
+            · rename_i hok
+              simp only [Except.ok.injEq] at h1; subst h1
+              have hnum : ¬ ((n = "@char" ∨ n = "@byte") ∧ isNum w = false) := by
+                rintro ⟨hn, hw⟩
+                exact absurd (valueOk_isNum hok hn) (by simp [hw])
+              rw [if_neg hnum, ih h2]
             · simp at h1
 
 theorem setLoop_error {f : F} {l : List V} {e : Err} (h : Impl.setLoop f l = .error e) :
@@ -354,6 +372,10 @@ theorem setLoop_error {f : F} {l : List V} {e : Err} (h : Impl.setLoop f l = .er
         by_cases hv : Spec.valueOk n k w = true
         · rw [if_pos hv]
           simp only
+          have hnum : ¬ ((n = "@char" ∨ n = "@byte") ∧ isNum w = false) := by
+            rintro ⟨hn, hw⟩
+            exact absurd (valueOk_isNum hv hn) (by simp [hw])
+          rw [if_neg hnum] at h
           cases h2 : Impl.setLoop f r with
           | error e' =>
             obtain ⟨e'', he⟩ := ih h2
